@@ -39,19 +39,19 @@ SOURCE_TYPE = {"cachet": "cache"}
 WEAK_MAY_CHANGE = {"cachet": "vita::cache::table_"}
 # objects per type, max stream length for exhaustive prefixes, token mutations per object: (quick, thorough)
 BUDGET = {
-    "hash": ((100, 600, 120), (800, 6000, 1000)),
-    "fit": ((200, 600, 120), (1600, 6000, 1000)),
-    "iga": ((150, 600, 120), (1200, 6000, 1000)),
-    "ide": ((150, 600, 120), (1200, 6000, 1000)),
-    "mati": ((100, 600, 120), (800, 6000, 1000)),
-    "matu": ((100, 600, 120), (800, 6000, 1000)),
-    "dist": ((100, 600, 160), (800, 6000, 1000)),
-    "imep": ((150, 600, 160), (1200, 6000, 1000)),
-    "team": ((40, 600, 160), (300, 6000, 1000)),
-    "pop": ((40, 600, 200), (300, 6000, 1200)),
-    "summ": ((80, 600, 160), (600, 6000, 1000)),
-    "lam": ((60, 600, 200), (480, 6000, 1200)),
-    "cachet": ((60, 400, 120), (480, 4000, 1000)),
+    "hash": ((100, 600, 120), (800, 6000, 600)),
+    "fit": ((200, 600, 120), (1600, 6000, 600)),
+    "iga": ((150, 600, 120), (1200, 6000, 600)),
+    "ide": ((150, 600, 120), (1200, 6000, 600)),
+    "mati": ((100, 600, 120), (800, 6000, 600)),
+    "matu": ((100, 600, 120), (800, 6000, 600)),
+    "dist": ((100, 600, 160), (800, 6000, 600)),
+    "imep": ((150, 600, 160), (1200, 6000, 600)),
+    "team": ((40, 600, 160), (300, 6000, 600)),
+    "pop": ((40, 600, 200), (300, 6000, 700)),
+    "summ": ((80, 600, 160), (600, 6000, 600)),
+    "lam": ((60, 600, 200), (480, 6000, 700)),
+    "cachet": ((60, 400, 120), (480, 4000, 600)),
 }
 FAILISH = ("fail", "exc:bad_alloc", "exc:length_error", "null", "exc:data_format")
 
